@@ -310,7 +310,9 @@ Next ==
           /\ S' = InitK(IF "k" \in DOMAIN Rec.c THEN Rec.c.k ELSE 0) /\ prevI' = InitK(0)
           /\ posted' = <<>> /\ got' = <<>> /\ fin' = <<>> /\ nok' = nok /\ hist' = hist
           /\ eng' = IF "engine" \in DOMAIN Rec.c /\ Rec.c.engine
-                    THEN Solve(IF Rec.c.mode = "query" THEN QueryGoalOf(Rec.c.qvars, Rec.c.body)
+                    THEN Solve(IF Rec.c.mode = "query"
+                               THEN QueryGoalP(Rec.c.qvars, Rec.c.body,
+                                               ~("backend" \in DOMAIN Rec.c /\ Rec.c.backend = "surface"))
                                ELSE Build("b", Rec.c.goal), InitK(0), 400, DefsOf(Rec.c)).s
                     ELSE <<"empty">>
      ELSE IF Rec.k = "engine"
